@@ -41,8 +41,22 @@ class Ctx:
         return x
 
 
+TAINT = False      # set per case: some input (coordinate / constant / base) is a float that is not a small rational
+
+
 def isx(x):
     return isinstance(x, Fraction)
+
+
+def _d(x):
+    """a DERIVED quantity of a case with genuine float inputs: the implementation computes it inexactly, so it is carried as
+    a float here too (and the near-boundary rule applies to it); leaves stay exact (a float given as input IS that number)"""
+    if TAINT and isinstance(x, Fraction) and x != 0:
+        try:
+            return float(x)
+        except OverflowError:
+            raise IllCond("overflow")
+    return x
 
 
 def lit(v):
@@ -63,13 +77,13 @@ def _shrink(x):
 
 def add(a, b):
     if isx(a) and isx(b):
-        return _shrink(a + b)
+        return _d(_shrink(a + b))
     return float(a) + float(b)
 
 
 def mul(a, b):
     if isx(a) and isx(b):
-        return _shrink(a * b)
+        return _d(_shrink(a * b))
     if (isx(a) and a == 0) or (isx(b) and b == 0):
         return Fraction(0)
     return float(a) * float(b)
@@ -93,8 +107,23 @@ def inv(a):
     if s == 0:
         raise Undef()
     if isx(a):
-        return 1 / a
+        return _d(1 / a)
     return 1.0 / a
+
+
+def div(a, b):
+    """a / b as ONE operation (the tree read as real arithmetic has no reciprocal intermediate)"""
+    s = sign(b)
+    if s == 0:
+        raise Undef()
+    if isx(a) and isx(b):
+        return _d(_shrink(a / b))
+    if isx(a) and a == 0:
+        return Fraction(0)
+    try:
+        return float(a) / float(b)
+    except (OverflowError, ZeroDivisionError):
+        raise IllCond("overflow")
 
 
 def ipow(a, k):
@@ -106,7 +135,7 @@ def ipow(a, k):
                 return float(a) ** k
             except OverflowError:
                 raise IllCond("overflow")
-        return a ** k
+        return _d(a ** k)
     try:
         return float(a) ** k
     except OverflowError:
@@ -138,7 +167,7 @@ def root(a, k):
     if isx(a):
         rn, rd = _iroot(abs(a.numerator), k), _iroot(a.denominator, k)
         if rn is not None and rd is not None:
-            return Fraction(s * rn, rd)
+            return _d(Fraction(s * rn, rd))
     x = abs(float(a)) ** (1.0 / k)
     return x if s > 0 else -x
 
@@ -153,7 +182,7 @@ def expb(b, a):
         r = root(b, a.denominator)
         if isx(r):
             if abs(a.numerator) * max(r.numerator.bit_length(), r.denominator.bit_length()) <= 1500:
-                return r ** a.numerator
+                return _d(r ** a.numerator)
     try:
         return float(b) ** float(a)
     except OverflowError:
@@ -231,8 +260,8 @@ def dv(e, v, p, cx):
         if op == "Minus":
             return S(add(a1, neg(b1))), S(add(a2, neg(b2)))
         if op == "Divide":
-            ib = inv(b1)
-            return S(mul(a1, ib)), S(add(mul(a2, ib), neg(mul(mul(a1, b2), mul(ib, ib)))))
+            val = S(div(a1, b1))
+            return val, S(add(div(a2, b1), neg(div(mul(val, b2), b1))))        # (a/b)' = a'/b - (a/b) b'/b
         w = S(powq(a1, b1))
         t1 = mul(mul(b1, powq(a1, add(b1, Fraction(-1)))), a2)
         t2 = mul(mul(logb(math.e, a1), w), b2)
@@ -276,6 +305,12 @@ def encode(x):
         if abs(x.numerator) <= 30000 and x.denominator <= 30000:
             return {"k": "q", "n": x.numerator, "d": x.denominator}
         return {"k": "big"}
+    try:
+        fx = Fraction(x)          # a derived float that is exactly a small rational (tainted cases: 0*x - 1 = -1.0)
+        if abs(fx.numerator) <= 30000 and fx.denominator <= 30000:
+            return {"k": "q", "n": fx.numerator, "d": fx.denominator}
+    except (OverflowError, ValueError):
+        pass
     return {"k": "fl"}
 
 
@@ -284,7 +319,18 @@ def value(e, p):
     return partial(e, None, p, which=0)
 
 
+def _has_float(e):
+    if e["op"] == "Constant":
+        return e["val"]["k"] == "f"
+    if e["op"] in ("Exponential", "Logarithm") and e["b"]["k"] == "f":
+        return True
+    ks = e.get("args") or ([e["l"], e["r"]] if "l" in e else ([e["a"]] if "a" in e else []))
+    return any(_has_float(c) for c in ks)
+
+
 def partial(e, v, p, which=1):
+    global TAINT
+    TAINT = any(c["k"] == "f" for c in p.values()) or _has_float(e)
     cx = Ctx()
     try:
         r = dv(e, v, p, cx)
